@@ -53,9 +53,11 @@ def fold_decides(repo: Repo, tier: str) -> bool:
 def compiled_fold_rule(repo: Repo, rep: Report, rid: str, tier: str) -> bool:
     prop = rid.split(".")[0]
     topic, cats, pred = ASPECTS[prop]
+    from ..genfold import FIELD_KINDS, TRIPLE_KINDS
+
     rep.rule(rid, "compiled reader, bounded-exhaustive in two stages: compiler.compile(structure) is interpreted on every sequence of up to 2 field kinds "
-                  "(44 kinds: packed / byte-based integers, floats, chars, wide chars, enums, flags, pointers, arrays of them, nested / dynamic types, void, "
-                  "bit-fields, explicit offsets), every triple over the 15 kinds that form and interrupt bit-field runs and fixed longer ones, packed and "
+                  f"({len(FIELD_KINDS)} kinds: packed / byte-based integers, floats, chars, wide chars, enums, flags, pointers, arrays of them, nested / dynamic types, void, "
+                  f"bit-fields, explicit offsets, twins with the same generated text), every triple over the {len(TRIPLE_KINDS)} kinds that form and interrupt bit-field runs, quadruples over 7 of them and fixed longer ones, packed and "
                   "aligned; the generated source is then interpreted over a stream model (both byte orders, stream starting at 0 / 3 / 16) and must give the "
                   "reference values (made with the field's own type), fetch positions, sizes, context, end position, and EOFError on a truncated image"
                   f" [reported here: {topic}]")
